@@ -34,6 +34,8 @@ func verifHarness_C03_routing() {
 	}
 	e := rtNewEnv(nSrc, nTgt)
 	e.lateFrom = nTgt
+	e.stallable = verifParam("stall", 0) == 1
+	e.wmOnly = verifParam("wmonly", 0) == 1
 	e.startAll()
 	for _, s := range e.sources {
 		s.onAck = c03OnAck
@@ -46,6 +48,13 @@ func verifHarness_C03_routing() {
 
 	// fair completion: the source keeps sending its periodic watermark, every
 	// target keeps acknowledging everything it holds.
+	for _, t := range e.targets {
+		if t.stalled {
+			verifReach("slow-target-resumed-for-drain")
+		}
+		t.resume()
+	}
+	verifQuiesce()
 	for r := 0; r < rounds; r++ {
 		verifAction("drain-round")
 		for _, s := range e.sources {
